@@ -243,6 +243,11 @@ def jobs(tier, seed):
         shsrc = '#include "verif_sandbox.hpp"\nusing S = %s;\n#include "C02_shapes.inc"\n' % sbx
         out.append(Job("C02_%s_shapes" % sbx, shsrc, [dict(name="%s rejected shape %s" % (sbx, k), fn=check_shape, kw=dict(k=k, pb=pb), optional=True) for k in SHAPES] +
                        [dict(name="%s control %s" % (sbx, k), fn=check_shape_ctl, kw=dict(k=k)) for k in ("k_ctl_init", "k_ctl_vol")], native=False))
+    # a third way in: copy_memory_or_grant_access on a backend that can refuse a grant and then hands back the source pointer
+    from specs import C10
+    gsrc = '#include "verif_sandbox.hpp"\nusing S = B32G;\n#include "C10_kernels.inc"\n'
+    out.append(Job("C02_B32G_grant", gsrc, [dict(name="B32G grant %s: a refused grant never wraps the raw buffer address" % tag, fn=C10.check_grant, kw=dict(tag=tag, esz=e, grantable=True))
+                                            for tag, e in (("char", 1), ("short", 2))], native=False))
     lsrc = '#include "verif_sandbox.hpp"\nusing S = B32L;\n#include "C02_life.inc"\n'
     for k in ("k_life_accept", "k_life_assign", "k_life_assignvol"):
         out.append(Job("C02_B32L_" + k, lsrc, [dict(name="B32L %s phase=%d" % (k, ph), fn=check_life, kw=dict(k=k, phase=ph)) for ph in (0, 1, 2)], native=False))
